@@ -71,7 +71,7 @@ class VLoop(asyncio.SelectorEventLoop):
             self._stall += 1
             if self._stall > SPIN_LIMIT and nxt is not None and nxt > self._vt:
                 if self._vt_limit is not None and nxt > self._vt_limit:
-                    self._vt = self._vt_limit
+                    self._vt = max(self._vt, self._vt_limit)      # never backwards: a blocking consumer may have moved the clock past the limit
                     self.stop_reason = 'vt-limit'
                     self._stopping = True
                 else:
